@@ -21,140 +21,17 @@ def run(ctx):
 
     # ------------------------------------------------------------------ R1 EOF with bytes outstanding raises
     R1 = ctx.rule("C13-R1", "EOF with bytes outstanding raises: in _raw_read, (no data and amt != 0 and enforce_content_length and length_remaining not in (None, 0)) => IncompleteRead, unless the stdlib read on that row raises it itself (read() without amount)", "E5 decision table on _raw_read + stdlib source facts")
+    from . import c13_rows
     rr = m.method(HR, "_raw_read")
-
-    class RawRule(BaseRule):
-        def call(self, it, st, node, recv, pos, kw):
-            t = ast.unparse(node.func)
-            if t == "self._fp.close":
-                s = st.copy()
-                s.ts["ev"] = s.ts.get("ev", ()) + ("close-fp",)
-                return [Out("normal", s, UNK)]
-            if t == "self._fp_read":
-                return [Out("normal", st, AV("unk", sym="data"))]
-            if t == "getattr":
-                return [Out("normal", st, AV("unk", sym="fp_closed"))]
-            if t == "len":
-                return [Out("normal", st, AV("unk", sym="len(data)"))]
-            q = it.resolve_callee(node, recv)
-            if q and it.m.is_exception_class(q):
-                return [Out("normal", st, AV("exc", it.m.norm(q), truth=True, none=False))]
-            return [Out("normal", st, UNK)]
-
-        def with_stmt(self, it, stmt, st):
-            return it.exec_block(stmt.body, [st])
-
-    seeds = {("self", "_fp"): AV("obj", "fp", truth=True, none=False), ("self", "enforce_content_length"): AV("unk", sym="enforce"),
-             ("self", "length_remaining"): AV("unk", sym="remaining")}
-    outs, it = run_function(m, rr, RawRule(), HR, seeds=seeds, record_decisions=True)
-    ctx.states += it.budget.steps
-    rows = set()
-    keep = {}
-    for o in outs:
-        if o.kind == "raise" and o.val.val in (EXT_TOP.val, BASE_TOP.val):
-            continue
-        f, ts = o.st.facts, o.st.ts
-        row = (
-            f.get("p:amt", (None, None))[1],                      # amt is None
-            ts.get(("cmp", "p:amt", "==", "0")),                  # amt == 0
-            f.get("p:read1", (None, None))[0],                    # read1
-            f.get("data", (None, None))[0],                       # data truthy
-            f.get("fp_closed", (None, None))[0],
-            f.get("enforce", (None, None))[0],
-            f.get("remaining", (None, None))[1],                  # remaining is None
-            ts.get(("cmp", "remaining", "==", "0")),
-            outcome_name(o),
-        )
-        rows.add(row)
-        keep.setdefault(row, o)
-    ctx.sites(R1, len(rows), 10, "rows of _raw_read")
-    nbad = 0
-    ncrit = 0
-    for row in sorted(rows, key=str):
-        amt_none, amt0, read1, data_t, fpc, enforce, rem_none, rem0, outcome = row
-        # the antecedent must be *consistent* with the row (untested atoms are don't-cares)
-        if data_t is not False or fpc is True:
-            continue
-        if amt0 is True:
-            continue
-        if enforce is False or rem_none is True or rem0 is True:
-            continue
-        if amt_none is True and read1 is not True:
-            continue  # http.client's read() without amount raises IncompleteRead itself on a short body (source fact below)
-        # bytes may be outstanding on this row
-        definite = enforce is True and rem_none is False and rem0 is False
-        ncrit += 1
-        ok = outcome in ("raise:IncompleteRead", "raise:ProtocolError")  # ProtocolError = IncompleteRead translated by the error catcher
-        if not ok and not definite:
-            # the row did not even test whether bytes are outstanding although data ran dry
-            pass
-        ctx.ob(R1, rr.qual, f"no data, amt-None={amt_none}, read1={read1}, enforce={enforce}, remaining-None={rem_none}, remaining==0:{rem0} -> {outcome}", ok,
-               "" if ok else "the stream ended with bytes outstanding (or without checking) and the read ends normally: a truncated body is presented as complete", witness=keep[row].st.witness(), node=rr.node)
-    ctx.sites(R1, ncrit, 2, "end-of-stream rows with bytes possibly outstanding")
+    c13_rows.r1_raw_read(ctx, R1)
     sr = m.find_method("http.client.HTTPResponse", "_safe_read")
     srd = m.find_method("http.client.HTTPResponse", "read")
     ok = sr is not None and "IncompleteRead" in astq.text(sr.node) and srd is not None and "_safe_read" in astq.text(srd.node)
     ctx.ob(R1, "http.client.HTTPResponse.read", "stdlib read() without amount reads the declared length through _safe_read, which raises IncompleteRead (source fact)", ok)
-    # closing happens before the raise
-    bad = [keep[r] for r in rows if r[8] in ("raise:IncompleteRead", "raise:ProtocolError") and "close-fp" not in keep[r].st.ts.get("ev", ())]
-    ctx.ob(R1, rr.qual, "the stdlib response is closed before IncompleteRead is raised", not bad)
 
     # ------------------------------------------------------------------ R2 chunk-size line
     R2 = ctx.rule("C13-R2", "a malformed or missing chunk-size line closes the response and raises (InvalidChunkLength / ProtocolError); an empty line is not accepted as zero; the size is parsed base 16 after cutting chunk extensions at ';'", "E4 on _update_chunk_length")
-    uc = m.method(HR, "_update_chunk_length")
-
-    class ChunkRule(BaseRule):
-        def call(self, it, st, node, recv, pos, kw):
-            t = ast.unparse(node.func)
-            if t == "int":
-                s = st.copy()
-                s.ts["int_args"] = tuple(ast.unparse(a) for a in node.args)
-                return [Out("normal", s, AV("unk", sym="size", none=False)), Out("raise", s.copy(), exc("builtins.ValueError"))]
-            if t == "self.close":
-                s = st.copy()
-                s.ts["closed"] = True
-                return [Out("normal", s, const(None))]
-            if t == "self._fp.fp.readline":
-                return [Out("normal", st, AV("unk", sym="line", tags=frozenset({"line"})))]
-            if isinstance(node.func, ast.Attribute) and node.func.attr == "split" and recv is not None:
-                s = st.copy()
-                s.ts["split"] = tuple(repr(p.val) if p.kind == "const" else "?" for p in pos)
-                return [Out("normal", s, AV("tuple", (AV("unk", sym=recv.sym, tags=recv.tags), UNK), truth=True, none=False))]
-            q = it.resolve_callee(node, recv)
-            if q and it.m.is_exception_class(q):
-                return [Out("normal", st, AV("exc", it.m.norm(q), truth=True, none=False))]
-            return [Out("normal", st, UNK)]
-
-    outs, it = run_function(m, uc, ChunkRule(), HR, seeds={("self", "chunk_left"): const(None)})
-    n = 0
-    for o in outs:
-        if o.kind == "raise" and o.val.val in (EXT_TOP.val, BASE_TOP.val):
-            continue
-        if o.kind == "raise":
-            n += 1
-            ok = o.val.val in ("urllib3.exceptions.InvalidChunkLength", "urllib3.exceptions.ProtocolError") and o.st.ts.get("closed")
-            ctx.ob(R2, uc.qual, f"unparsable size line -> {outcome_name(o)} after close={bool(o.st.ts.get('closed'))}", bool(ok),
-                   "" if ok else "a broken chunk header does not end in a urllib3 protocol error with the response closed", witness=o.st.witness(), node=uc.node)
-        else:
-            ia = o.st.ts.get("int_args")
-            ok = ia is not None and len(ia) == 2 and ia[1] == "16" and ia[0].isidentifier() and o.st.ts.get("split") == ("b';'", "1")
-            cl = o.st.heap.get(("self", "chunk_left"))
-            ok = ok and cl is not None and cl.sym == "size"
-            ctx.ob(R2, uc.qual, f"size line parsed as int(line-before-';', 16) into chunk_left", bool(ok), f"int{ia} split{o.st.ts.get('split')}", witness=o.st.witness(), node=uc.node)
-    ctx.sites(R2, n, 2, "error exits of _update_chunk_length")
-    hs = [h for h in astq.walk_fn(uc.node) if isinstance(h, ast.ExceptHandler)]
-    ok = len(hs) == 1 and astq.handler_type_names(hs[0]) == ["ValueError"] and astq.all_paths_end_in(hs[0].body, lambda s: isinstance(s, ast.Raise) and s.exc is not None)
-    ctx.ob(R2, uc.qual, "the ValueError handler raises on every path (an empty line, i.e. EOF, is 'Response ended prematurely', not size 0)", ok)
-    # read_chunked: the loop ends only on chunk_left == 0
-    rc = m.method(HR, "read_chunked")
-    wl = [n_ for n_ in astq.walk_fn(rc.node) if isinstance(n_, ast.While) and astq.text(n_.test) == "True"]
-    ok = False
-    if wl:
-        brk = [n_ for n_ in ast.walk(wl[0]) if isinstance(n_, ast.Break)]
-        ok = len(brk) == 1 and astq.text(astq.enclosing(brk[0], ast.If).test) == "self.chunk_left == 0"
-        first = wl[0].body[0]
-        ok = ok and isinstance(first, ast.Expr) and astq.text(first.value) == "self._update_chunk_length()"
-    ctx.ob(R2, rc.qual, "the chunk loop ends only at the terminating zero-size chunk, re-reading the size line each round", ok)
+    c13_rows.r2_chunk_size_line(ctx, R2)
 
     # ------------------------------------------------------------------ R3 chunk payload primitive
     R3 = ctx.rule("C13-R3", "chunk payloads and their CRLFs are read only through the length-enforcing primitive _safe_read (which raises IncompleteRead on a short chunk)", "E8")
@@ -305,28 +182,7 @@ def run(ctx):
 
     # ------------------------------------------------------------------ R5 conflicting lengths
     R5 = ctx.rule("C13-R5", "conflicting Content-Length values raise InvalidHeader; with chunked transfer-encoding the length is ignored", "E5 on _init_length")
-    il = m.method(HR, "_init_length")
-    txt = astq.text(il.node)
-    lset = set(astq.assigned_from(il.node, lambda v: isinstance(v, ast.SetComp)))
-    g = [n_ for n_ in astq.walk_fn(il.node) if isinstance(n_, ast.If) and isinstance(n_.test, ast.Compare) and isinstance(n_.test.ops[0], ast.Gt)
-         and astq.text(n_.test.comparators[0]) == "1" and isinstance(n_.test.left, ast.Call) and astq.call_text(n_.test.left) == "len" and astq.text(n_.test.left.args[0]) in lset]
-    ok = bool(g) and astq.all_paths_end_in(g[0].body, lambda s: isinstance(s, ast.Raise) and "InvalidHeader" in astq.text(s.exc))
-    ctx.ob(R5, il.qual, "more than one distinct Content-Length value raises InvalidHeader", ok)
-    comps = [n_.value for n_ in astq.walk_fn(il.node) if isinstance(n_, ast.Assign) and isinstance(n_.value, ast.SetComp)]
-    ok = bool(comps) and isinstance(comps[0].elt, ast.Call) and astq.call_text(comps[0].elt) == "int" and ".split(','" in astq.text(comps[0].generators[0].iter).replace('"', "'")
-    ctx.ob(R5, il.qual, "values are compared as integers (set of int)", ok)
-    # InvalidHeader must not be swallowed by the surrounding except ValueError
-    inv = m.classes.get("urllib3.exceptions.InvalidHeader")
-    ok = inv is not None and not m.issub("urllib3.exceptions.InvalidHeader", "builtins.ValueError")
-    ctx.ob(R5, il.qual, "InvalidHeader is not a ValueError (the enclosing `except ValueError` cannot swallow it)", ok)
-    g2 = [n_ for n_ in astq.walk_fn(il.node) if isinstance(n_, ast.If) and astq.text(n_.test) == "self.chunked"]
-    ok = bool(g2) and any(isinstance(s, ast.Return) and isinstance(s.value, ast.Constant) and s.value.value is None for s in g2[0].body)
-    ctx.ob(R5, il.qual, "chunked responses ignore Content-Length (length None)", ok)
-    ret_names = {astq.text(r_.value) for r_ in astq.walk_fn(il.node) if isinstance(r_, ast.Return) and isinstance(r_.value, ast.Name)}
-    g3 = [n_ for n_ in astq.walk_fn(il.node) if isinstance(n_, ast.If) and isinstance(n_.test, ast.Compare) and isinstance(n_.test.ops[0], ast.Lt)
-          and astq.text(n_.test.comparators[0]) == "0" and astq.text(n_.test.left) in ret_names]
-    ok = bool(g3) and any(isinstance(s_, ast.Assign) and astq.text(s_.targets[0]) == astq.text(g3[0].test.left) and astq.text(s_.value) == "None" for s_ in g3[0].body)
-    ctx.ob(R5, il.qual, "a negative length is treated as unknown", ok)
+    c13_rows.r5_conflicting_lengths(ctx, R5)
 
     # ------------------------------------------------------------------ R6 shared with C01-R6
     from .c01_more import run as _c01more  # noqa: F401
@@ -426,7 +282,5 @@ def rule_chunk_state(ctx):
                    "" if ok else "the counter can reach 0 (or is left unchanged) without the chunk being closed: read_chunked takes 0 for the terminating chunk and silently drops the rest of the body", witness=o.st.witness(), node=hc.node)
     ctx.sites(R9, n, 3, "exits of _handle_chunk")
     # read_chunked: 0 means terminator, and the size line is only read when the counter is None
-    uc = m.method(HR, "_update_chunk_length")
-    first = [s_ for s_ in uc.node.body if isinstance(s_, ast.If)]
-    ok = bool(first) and astq.text(first[0].test) == "self.chunk_left is not None" and any(isinstance(x, ast.Return) for x in first[0].body)
-    ctx.ob(R9, uc.qual, "a new size line is read exactly when the counter is None", ok)
+    from . import c13_rows as _c13r
+    _c13r.r9_size_line_guard(ctx, R9)
